@@ -1,6 +1,7 @@
 import Svgbob.Proofs.Guard
 import Svgbob.Proofs.CircleFacts
 import Svgbob.Model.Doc
+import Svgbob.Proofs.Canvas
 /-!
 # C12 — the canvas has one cell of margin and contains everything that is drawn
 
@@ -8,8 +9,16 @@ Proved here: the canvas formula; that every behaviour row of the regenerated ASC
 fragments within one cell of its own cell and reaches left / up only when a neighbour exists on
 that side (so nothing is drawn at negative coordinates); that glyph fragments stay inside their
 cell; that every catalogue circle lies inside the box of its drawing plus the margin.
-Not yet proved (oracle only): the lift of these facts through line merging and rectangle
-endorsement (merged lines and rectangles are hulls of their parts).
+Lifted through the pipeline (`Proofs/Canvas.lean`): for every span whose cells lie in columns
+`0..mx` and rows `0..my`, every line, marker line, polygon, bullet, text and rectangle the model
+builds from it has all its control points inside `[0, (mx+2)] × [0, (my+2)]` cells — per-cell table
+fragments (a fragment reaching left of / above its cell needs a neighbour there, so it never goes
+negative), the ordered fragment buffer, every merge (merged lines end in end points of their parts,
+a line snapped to a bullet ends in the bullet's centre), contact grouping, and sharp and rounded
+rectangle endorsement (corners are hull corners of the parts). A circle matched from the catalogue
+lies inside the canvas of the span wherever the span is (`circle_anywhere_inside_canvas`, from the
+decided catalogue facts). Not covered by a theorem: the end points of catalogue *arcs* (quarter,
+half, three-quarter) and the extent of a text beyond its first cell (both oracle only).
 Known finding: texts from the quoted-string channel are not counted in the canvas size
 (`KNOWN_FINDINGS.json`, class `quoted_text_outside_canvas`).
 -/
@@ -67,6 +76,59 @@ theorem catalogue_circles_inside :
   | some l =>
     simp only [hc, Option.map_some, Option.some.injEq, Bool.and_eq_true] at h ⊢
     exact h.1.1.1.2
+
+/-- **every shape built from the cells of a span lies inside the canvas** (all inputs, all span
+shapes): rectangles endorsed from the span and all fragments of its remaining contact groups -/
+theorem shapes_inside_canvas (len : List Char → Nat) (cat : Catalogue) (mx my : Int)
+    (hmx : 0 ≤ mx) (hmy : 0 ≤ my) (s : Span) (hs : SpanIn mx my s) (acc : List FragSpan) (rest : Span)
+    (h : endorseArcsAndCircles cat s = some (acc, rest)) :
+    (∀ f ∈ (endorseRects (contactsOf len rest)).1,
+      f.frag.InRange 0 ((mx + 2) * 1000) 0 ((my + 2) * 2000)) ∧
+    (∀ g ∈ (endorseRects (contactsOf len rest)).2, ∀ f ∈ g,
+      f.frag.InRange 0 ((mx + 2) * 1000) 0 ((my + 2) * 2000)) :=
+  span_shapes_inCanvas len cat mx my hmx hmy s hs acc rest h
+
+/-- the canvas of the model is exactly that box: `canvasSize` at unit scale over a cell set whose
+largest column and row are `mx`, `my` -/
+theorem canvas_is_that_box (cfg : Cfg) (c : Cell × Char) (cs : List (Cell × Char)) :
+    canvasSize cfg (c :: cs) =
+      ((listMax ((c :: cs).map (·.1.x)) 0 + 2) * 1000 * cfg.scaleN,
+       (listMax ((c :: cs).map (·.1.y)) 0 + 2) * 2000 * cfg.scaleN) := canvas_size cfg c cs
+
+/-- every cell of a cell set lies in columns `≤ listMax x` and rows `≤ listMax y`, so the hypothesis
+`SpanIn` of `shapes_inside_canvas` holds for every span of a drawing with non-negative cells -/
+theorem cells_within_their_maxima (cells : Span) (hpos : ∀ cc ∈ cells, 0 ≤ cc.1.x ∧ 0 ≤ cc.1.y) :
+    SpanIn (listMax (cells.map (·.1.x)) 0) (listMax (cells.map (·.1.y)) 0) cells := by
+  intro cc hcc
+  have h1 := le_listMax (cells.map (·.1.x)) 0 cc.1.x (List.mem_map.mpr ⟨cc, hcc, rfl⟩)
+  have h2 := le_listMax (cells.map (·.1.y)) 0 cc.1.y (List.mem_map.mpr ⟨cc, hcc, rfl⟩)
+  have := hpos cc hcc
+  omega
+
+/-- **a catalogue circle anywhere**: a drawing whose circle lies inside its own box plus margin
+(`circleInside`, decided for all 22 drawings in `catalogue_circles_inside`) and whose radius is not
+negative (`radius_rule_nonneg`), matched in any span at any position, gives a circle inside the
+canvas of that span -/
+theorem circle_anywhere_inside_canvas (mx my : Int) (s : Span) (hs : SpanIn mx my s) (tl br : Cell)
+    (hb : s.bounds = some (tl, br)) (ci : CircleInfo) (hin : circleInside ci = true)
+    (hr : 0 ≤ ci.radius) (rest : Span) (hm : matchSpan ci.span s = some rest) :
+    (Frag.absPos tl (.circle ci.center ci.radius false)).InRange 0 ((mx + 2) * 1000) 0 ((my + 2) * 2000) :=
+  matched_circle_inCanvas mx my s hs tl br hb ci hin hr rest hm
+
+/-- the radius rule (decided for all 22 drawings in `C13.catalogue_geometry`) makes radii non-negative -/
+theorem radius_rule_nonneg (row : CircleArtRow) (ci : CircleInfo) (h : circleRadiusRule row ci = true) :
+    0 ≤ ci.radius := radius_nonneg row ci h
+
+/-- merging never leaves the range of its parts -/
+theorem merge_stays_in_range (len : List Char → Nat) (lx hx ly hy : Int) (a b m : Frag)
+    (h : Frag.merge len a b = some m) (ha : a.InRange lx hx ly hy) (hb : b.InRange lx hx ly hy) :
+    m.InRange lx hx ly hy := Frag.merge_inRange len lx hx ly hy a b m h ha hb
+
+/-! Non-vacuity: a two-cell span satisfies `SpanIn`. -/
+example : SpanIn 1 0 [(⟨0, 0⟩, '-'), (⟨1, 0⟩, '-')] := by
+  intro cc hcc
+  simp only [List.mem_cons, List.mem_nil_iff, or_false] at hcc
+  rcases hcc with rfl | rfl <;> simp
 
 /-- a text is anchored inside its own cell: grid point `q` = (0.25, 1.5) of the cell -/
 theorem text_anchor_inside_cell (st : Cell) :
